@@ -1718,7 +1718,12 @@ class Request:
         self._disconnected = True
         self.channel = None
         if self.content is not None:
-            self.content.close()
+            try:
+                self.content.close()
+            except OSError:
+                # As in _cleanup: a failure to close the body file must not
+                # keep the waiters from learning that the connection is gone.
+                pass
         for d in self.notifications:
             d.errback(reason)
         self.notifications = []
